@@ -42,8 +42,17 @@ namespace sim
         r += (i ? "," : "") + str(kv[i].first) + ":" + kv[i].second;
       return r + "}";
     }
+    // when > 0 every coordinate pair written into a world file is snapped to a multiple of it: round-number
+    // geometry puts probe points (midpoints of named points) exactly on polygon and triangle edges
+    double g_snap = 0;
+
     std::string pt(double x, double y)
     {
+      if (g_snap > 0)
+        {
+          x = std::round(x / g_snap) * g_snap;
+          y = std::round(y / g_snap) * g_snap;
+        }
       return "[" + num(x) + "," + num(y) + "]";
     }
     std::string nums(const std::vector<double> &v)
@@ -431,6 +440,8 @@ namespace sim
       return "";
     }
 
+    std::string depth_surface(Rng &r, const std::vector<std::array<double, 2>> &poly, double lo, double hi, double &smin, double &smax);
+
     std::string area_feature(Rng &r, const Frame &f, const std::string &family, int idx)
     {
       KV kv;
@@ -442,8 +453,10 @@ namespace sim
       kv.push_back({"coordinates", pts(poly)});
       const double lo = r.chance(0.6) ? 0.0 : r.real(0, 100e3);
       const double hi = lo + r.real(20e3, 400e3);
-      kv.push_back({"min depth", num(lo)});
-      kv.push_back({"max depth", num(hi)});
+      double s0, s1;
+      // sometimes the depth range is a surface given as values at points inside the polygon
+      kv.push_back({"min depth", (lo > 0 && r.chance(0.25)) ? depth_surface(r, poly, 0.5 * lo, lo, s0, s1) : num(lo)});
+      kv.push_back({"max depth", r.chance(0.3) ? depth_surface(r, poly, hi, 1.3 * hi, s0, s1) : num(hi)});
       model_lists(r, family, area_keys(), lo, hi, f, poly, kv, false, nullptr);
       return obj(kv);
     }
@@ -672,9 +685,17 @@ namespace sim
 
   GenWorld gen_rich_world(Rng &r, bool with_random_models)
   {
-    (void) with_random_models;
     GenWorld g;
     const Frame f = random_frame(r, false);
+    struct SnapGuard
+    {
+      ~SnapGuard()
+      {
+        g_snap = 0;
+      }
+    } snap_guard;
+    if (r.chance(0.3))
+      g_snap = f.spherical ? 1.0 : 50e3;
     g.spherical = f.spherical;
     g.radius = f.radius;
     KV kv;
@@ -684,7 +705,7 @@ namespace sim
     static const char *area[] = {"continental plate", "oceanic plate", "mantle layer"};
     for (int i = 0; i < n; ++i)
       {
-        const double s = r.real();
+        const double s = with_random_models ? r.real(0.45, 0.68) : r.real(); // second argument: plume-heavy mix
         if (s < 0.5)
           feats.push_back(area_feature(r, f, area[r.below(3)], i));
         else if (s < 0.62)
@@ -861,6 +882,41 @@ namespace sim
       }
     kv.push_back({"features", list(feats)});
     g.json = obj(kv);
+    return g;
+  }
+
+  GenWorld gen_edge_world(Rng &r, WorldInfo &info)
+  {
+    GenWorld g;
+    const double L = r.chance(0.5) ? 1000e3 : 600e3;
+    const double ox = 100e3 * static_cast<double>(r.range(-5, 5)), oy = 100e3 * static_cast<double>(r.range(-5, 5));
+    const bool vertical = r.chance(0.5);
+    const double c = (vertical ? ox : oy) + L / 2;
+    const double d0 = 300e3, d1 = r.real(100e3, 200e3), d2 = r.real(100e3, 200e3);
+    const std::string p1 = vertical ? pt(c, oy) : pt(ox, c);
+    const std::string p2 = vertical ? pt(c, oy + L) : pt(ox + L, c);
+    const std::string surface = list({list({num(d0)}), list({num(d1), list({p1})}), list({num(d2), list({p2})})});
+    KV kv;
+    kv.push_back({"version", str("1.1")});
+    kv.push_back({"coordinate system", obj({{"model", str("cartesian")}})});
+    if (r.chance(0.5))
+      kv.push_back({"cross section", list({pt(ox, oy + L / 4), pt(ox + L, oy + 3 * L / 4)})});
+    KV fk;
+    fk.push_back({"model", str(r.chance(0.5) ? "continental plate" : "oceanic plate")});
+    fk.push_back({"name", str("variable thickness plate")});
+    fk.push_back({"coordinates", list({pt(ox, oy), pt(ox, oy + L), pt(ox + L, oy + L), pt(ox + L, oy)})});
+    fk.push_back({"max depth", surface});
+    fk.push_back({"temperature models", list({obj({{"model", str("linear")}, {"max depth", surface}, {"top temperature", num(293)}, {"bottom temperature", num(1600)}})})});
+    fk.push_back({"composition models", list({obj({{"model", str("uniform")}, {"compositions", inums({0})}, {"max depth", surface}})})});
+    kv.push_back({"features", list({obj(fk)})});
+    g.json = obj(kv);
+    info = analyse_world("edge.wb", g.json);
+    info.edge_world = true;
+    info.edge_vertical = vertical;
+    info.edge_c = c;
+    info.edge_lo = vertical ? oy : ox;
+    info.edge_hi = info.edge_lo + L;
+    info.edge_depth = std::min(d1, d2);
     return g;
   }
 }
